@@ -130,7 +130,7 @@ def _update(prog, requested, A, kind):
     """the update of this call, read from the aggregator's answer with the column order the code used (identified by matching the matrix)"""
     M = rows_of(A.seen[-1])
     v = A.outs[-1]._flat() if not isinstance(A, CachedAStar) else A.cached_values
-    shared = requested if kind == "backward" else [n for n in requested if n.startswith("p")]
+    shared = requested if kind == "backward" else [n for n in requested if n.startswith("p") or n == "us"]
     res = {}
     for pi in itertools.permutations(shared):
         if kind == "backward":
@@ -152,7 +152,7 @@ def _update(prog, requested, A, kind):
                 D = prog.total_jac(n)
                 acc = [R(0)] * prog[n].numel()
                 for l in ("loss0", "loss1"):
-                    if l in D and l in {"q0": ["loss0"], "q1": ["loss1"]}[n]:
+                    if l in D and l in {"q0": ["loss0"], "q1": ["loss1"]}.get(n, []):
                         acc = [a + b for a, b in zip(acc, D[l][0])]
                 res[n] = acc
     return res
@@ -166,15 +166,19 @@ def case_bw(sp):
     n_calls = 2 + choice(2, "n_calls")
     k = [None, 1, 2][choice(3, "chunk")]
     spec = C20._spec_bw()
+    # a requested leaf that the outputs do not depend on: its .grad must be created (zeros) / kept, like any other requested one
+    unused = choice(2, "unused_leaf_requested") == 1
+    spec = dict(leaves=list(spec["leaves"]) + [("u", (2,), True)], ops=spec["ops"])
     horder = choice(2, "set_order")
-    prog = Prog(spec, ranks={"a": horder, "b": 1 - horder, "c": 5, "h": 6, "d": 7, "y1": 10, "y2": 11})
-    requested, others = ["a", "b"], ["c", "d", "h", "y1", "y2"]
+    prog = Prog(spec, ranks={"a": horder, "b": 1 - horder, "c": 5, "h": 6, "d": 7, "u": 8, "y1": 10, "y2": 11})
+    requested, others = ["a", "b"] + (["u"] if unused else []), ["c", "d", "h", "y1", "y2"] + ([] if unused else ["u"])
     if pre:
         set_grad(prog["a"], "a")
     set_grad(prog["c"], "c")
     A = CachedAStar() if cached else AStar()
     gen = choice(2, "inputs_as_generator") == 1
-    call = lambda: backward([prog["y1"], prog["y2"]], A, inputs=(x for x in [prog["a"], prog["b"]]) if gen else [prog["a"], prog["b"]], retain_graph=True, parallel_chunk_size=k)
+    ins = lambda: [prog[n] for n in requested]
+    call = lambda: backward([prog["y1"], prog["y2"]], A, inputs=(x for x in ins()) if gen else ins(), retain_graph=True, parallel_chunk_size=k)
     return _run_history(sp, prog, requested, others, call, A, e, n_calls, "backward", spec, dict(chunk=k, pre=pre, cached=cached, edit=e, generator=gen))
 
 
@@ -185,18 +189,20 @@ def case_mtl(sp):
     cached = choice(2, "aggregator_returns_cached_tensor") == 1
     n_calls = 2 + choice(2, "n_calls")
     k = [None, 1, 2][choice(3, "chunk")]
-    spec = dict(leaves=[("p0", (2,), True), ("p1", (), True), ("q0", (2,), True), ("q1", (), True), ("z", (2,), True), ("d", (2,), False)],
+    where_unused = choice(3, "unused_leaf_requested")  # 0: not requested, 1: listed in shared_params, 2: listed in the first task's parameters
+    spec = dict(leaves=[("p0", (2,), True), ("p1", (), True), ("q0", (2,), True), ("q1", (), True), ("z", (2,), True), ("d", (2,), False), ("us" if where_unused == 1 else "ut", (2,), True)],
                 ops=[dict(name="trunk", inputs=["p0", "p1", "d"], outs=[("f", (2,))], deps={(0, 0), (0, 1), (0, 2)}),
                      dict(name="head0", inputs=["f", "q0"], outs=[("loss0", ())], deps={(0, 0), (0, 1)}),
                      dict(name="head1", inputs=["f", "q1", "z"], outs=[("loss1", ())], deps={(0, 0), (0, 1), (0, 2)})])
     horder = choice(2, "set_order")
     prog = Prog(spec, ranks={"p0": horder, "p1": 1 - horder})
-    requested, others = ["q0", "p0", "p1", "q1"], ["z", "d", "f", "loss0", "loss1"]
+    un = "us" if where_unused == 1 else "ut"
+    requested, others = ["q0", "p0", "p1", "q1"] + ([un] if where_unused else []), ["z", "d", "f", "loss0", "loss1"] + ([] if where_unused else [un])
     if pre:
         set_grad(prog["q0"], "q0")
         set_grad(prog["p1"], "p1")
     set_grad(prog["z"], "z")
     A = CachedAStar() if cached else AStar()
-    call = lambda: mtl_backward([prog["loss0"], prog["loss1"]], prog["f"], A, tasks_params=[[prog["q0"]], [prog["q1"]]], shared_params=[prog["p0"], prog["p1"]],
-                                retain_graph=True, parallel_chunk_size=k)
+    call = lambda: mtl_backward([prog["loss0"], prog["loss1"]], prog["f"], A, tasks_params=[[prog["q0"]] + ([prog[un]] if where_unused == 2 else []), [prog["q1"]]],
+                                shared_params=[prog["p0"], prog["p1"]] + ([prog[un]] if where_unused == 1 else []), retain_graph=True, parallel_chunk_size=k)
     return _run_history(sp, prog, requested, others, call, A, e, n_calls, "mtl", spec, dict(chunk=k, pre=pre, cached=cached, edit=e))
